@@ -552,6 +552,12 @@ impl SlabRouter {
     ///
     /// Returns an error if snapshot save or WAL operations fail.
     pub fn checkpoint(&self, snapshot_path: &Path) -> Result<u64, SlabRouterError> {
+        // Make the log complete on disk before the snapshot replaces it as the
+        // base: records still buffered (batched/manual sync) would otherwise be
+        // written, possibly only in part, after the snapshot already contains
+        // them, and replaying part of them on top of it is not idempotent.
+        self.wal_sync()?;
+
         // Save snapshot first
         self.save_to_file(snapshot_path)
             .map_err(|e| SlabRouterError::WalError(format!("Failed to save snapshot: {e}")))?;
